@@ -188,7 +188,7 @@ def _collect(tier, rnd, events, meta, calls, get_piecewise_data_points, np):
                 fl.append("C17.linearisation_one_sided")
             meta[eid] = dict(float_fails=fl, excess=excess)
             events.append(dict(id=eid, hot=hot, onesided=True, refined=bool(len(res) > 10), endsKept=ends, ordered=ordered, pts=ev,
-                               epsu=int(round(epsu)), npts=len(res), slsqp_ok=bool(calls[-1]) if calls else True))
+                               epsu=int(round(epsu)), npts=len(res), slsqp_ok=bool(calls[-1]) if calls else True, ncalls=len(calls)))
 
 
 def kf_unrefined(v, f):
@@ -198,8 +198,12 @@ def kf_unrefined(v, f):
 def kf_slsqp(v, f):
     """refined profile for which SLSQP did not report success, or whose answer violates the constraint it was given:
     the optimiser's result is used unchecked (observed by a harness-side wrapper around the module's `minimize`)"""
-    return (v.clause in ("C17.linearisation_one_sided", "C17.linearisation_within_max_deviation")
-            and v.case.get("refined") and v.case.get("slsqp_ok") is False)
+    if not (v.case.get("refined") and v.case.get("slsqp_ok") is False):
+        return False
+    if v.clause == "C17.linearisation_one_sided":
+        return True
+    # the overall tolerance may only be missed after the code has used up all ten of its retries
+    return v.clause == "C17.linearisation_within_max_deviation" and v.case.get("ncalls", 0) >= 10
 
 
 def check(prop, tier, run: Run, replay_case=None):
@@ -276,14 +280,14 @@ def check(prop, tier, run: Run, replay_case=None):
         if tag == "VERDICT":
             e = byid[obj["id"]]
             for c in obj["fails"]:
-                run.violation(c, dict(id=e["id"], refined=e["refined"], npts=e["npts"], hot=e["hot"], excess=meta.get(e["id"], {}).get("excess"), slsqp_ok=e["slsqp_ok"]),
+                run.violation(c, dict(id=e["id"], refined=e["refined"], npts=e["npts"], hot=e["hot"], excess=meta.get(e["id"], {}).get("excess"), slsqp_ok=e["slsqp_ok"], ncalls=e["ncalls"]),
                               dict(leg="T", judge="TLC"), leg="T")
     for eid, m in meta.items():
         if "raises" in m:
             run.violation("C17.linearisation_raises", dict(id=eid), m, leg="T")
         for c in m.get("float_fails", []):
             e = byid[eid]
-            run.violation(c, dict(id=e["id"], refined=e["refined"], npts=e["npts"], hot=e["hot"], excess=m.get("excess"), slsqp_ok=e["slsqp_ok"]), dict(leg="T", judge="float"), leg="T")
+            run.violation(c, dict(id=e["id"], refined=e["refined"], npts=e["npts"], hot=e["hot"], excess=m.get("excess"), slsqp_ok=e["slsqp_ok"], ncalls=e["ncalls"]), dict(leg="T", judge="float"), leg="T")
     run.cov["evaluations"] += sum(len(e["pts"]) for e in events)
     run.cov["traces_validated_against_impl"] += len(events)
     run.notes["trace_profiles"] = dict(events=len(events), refined=sum(1 for e in events if e["refined"]), epsu_min=min(e["epsu"] for e in events))
